@@ -1447,6 +1447,8 @@ func main() {
 
 	// --- element types, machine-word arguments, constructor forms (legs3.go; oracle-only)
 	typeLegs(r)
+	// --- large one-piece rings: long rotations and capacity changes at every layout (legs4.go; oracle-only)
+	bigLegs(r)
 
 	// --- failing-input search legs (search.go). They run before the free-running goroutine cases: a forced schedule
 	// (stalled lock holder) gives a replay that reproduces, a lucky free-running one may not.
